@@ -263,7 +263,7 @@ def gen_table(rng, spec, nrows=None):
                     f2 = dict(fs, dtype=d, checks=fs["checks"] + list(spec.get("checks") or []))
                     try:
                         ok = satisfying(f2)
-                    except TypeError:
+                    except (TypeError, AttributeError):
                         ok = []
                     if ok and (not fs["unique"] or len(ok) >= n):
                         c["values"] = rng.sample(ok, n) if fs["unique"] else [rng.choice(ok) for _ in range(n)]
